@@ -95,7 +95,9 @@ HandOver(tr, st, cmp) ==
     IF Len(tr) = 0 THEN tr
     ELSE [tr EXCEPT ![Len(tr)] = [st |-> st, alt |-> <<>>, cmp |-> cmp, ph |-> @.ph, ops |-> 0]]
 
-Res(ok, tr) == [ok |-> ok, tr |-> tr]
+\* err: the error class of the opcode that failed ("" when verification failed elsewhere or succeeded)
+Res(ok, tr) == [ok |-> ok, tr |-> tr, err |-> ""]
+ResE(tr, e) == [ok |-> FALSE, tr |-> tr, err |-> e]
 
 -----------------------------------------------------------------------------
 (* witness programs *)
@@ -103,11 +105,11 @@ Res(ok, tr) == [ok |-> ok, tr |-> tr]
 \* ExecuteWitnessScript: result [ok, tr, run]; run = FALSE: ended before the script ran
 ExecWitness(stk, script, c, budget, ph) ==
     LET scan == IF c.sv = "tap" THEN SuccessScan(script) ELSE "none" IN
-    IF scan = "success" THEN [ok |-> ~Has(c, "DISCOURAGE_OP_SUCCESS"), tr |-> <<>>, run |-> FALSE]
-    ELSE IF c.sv = "tap" /\ Len(stk) > 1000 THEN [ok |-> FALSE, tr |-> <<>>, run |-> FALSE]
-    ELSE IF \E i \in 1..Len(stk) : stk[i].n > 520 THEN [ok |-> FALSE, tr |-> <<>>, run |-> FALSE]
+    IF scan = "success" THEN [ok |-> ~Has(c, "DISCOURAGE_OP_SUCCESS"), tr |-> <<>>, run |-> FALSE, err |-> ""]
+    ELSE IF c.sv = "tap" /\ Len(stk) > 1000 THEN [ok |-> FALSE, tr |-> <<>>, run |-> FALSE, err |-> ""]
+    ELSE IF \E i \in 1..Len(stk) : stk[i].n > 520 THEN [ok |-> FALSE, tr |-> <<>>, run |-> FALSE, err |-> ""]
     ELSE LET r == RunScript(stk, c, script, budget, ph) IN
-         [ok |-> r.err = "" /\ Len(r.st) = 1 /\ AsBool(r.st[1]), tr |-> r.tr, run |-> TRUE]
+         [ok |-> r.err = "" /\ Len(r.st) = 1 /\ AsBool(r.st[1]), tr |-> r.tr, run |-> TRUE, err |-> r.err]
 
 \* schnorr key-path signature check (sigversion code 3, with an annex 4)
 KeyPathOK(sig, prog, annex) ==
@@ -124,7 +126,7 @@ Commits(ctrl, scrE, prog) ==
 \* VerifyWitnessProgram: result [ok, tr, run, stk]; stk = the stack the inner
 \* script starts from (when run)
 VerifyWitnessProgram(c0, wit, ver, prog, isP2SH) ==
-    LET no(v) == [ok |-> v, tr |-> <<>>, run |-> FALSE, stk |-> <<>>] IN
+    LET no(v) == [ok |-> v, tr |-> <<>>, run |-> FALSE, stk |-> <<>>, err |-> ""] IN
     IF ver = 0 THEN
         IF prog.n = 32 THEN
             IF Len(wit) = 0 THEN no(FALSE)
@@ -133,11 +135,11 @@ VerifyWitnessProgram(c0, wit, ver, prog, isP2SH) ==
                  ELSE IF HashOf("sha256", scrE) # prog THEN no(FALSE)
                  ELSE IF ScriptLen(ScriptOfElem(scrE)) > 10000 THEN no(FALSE)
                  ELSE LET r == ExecWitness(stk, ScriptOfElem(scrE), V0(c0), 0, "wscript") IN
-                      [ok |-> r.ok, tr |-> r.tr, run |-> r.run, stk |-> stk]
+                      [ok |-> r.ok, tr |-> r.tr, run |-> r.run, stk |-> stk, err |-> r.err]
         ELSE IF prog.n = 20 THEN
             IF Len(wit) # 2 THEN no(FALSE)
             ELSE LET r == ExecWitness(wit, P2PKHScript(prog), V0(c0), 0, "wpkh") IN
-                 [ok |-> r.ok, tr |-> r.tr, run |-> r.run, stk |-> wit]
+                 [ok |-> r.ok, tr |-> r.tr, run |-> r.run, stk |-> wit, err |-> r.err]
         ELSE no(FALSE)
     ELSE IF ver = 1 /\ prog.n = 32 /\ ~isP2SH THEN
         IF ~Has(c0, "TAPROOT") THEN no(TRUE)
@@ -145,12 +147,17 @@ VerifyWitnessProgram(c0, wit, ver, prog, isP2SH) ==
         ELSE LET annex == Len(wit) >= 2 /\ IsAnnex(wit[Len(wit)])
                  w == IF annex THEN SubSeq(wit, 1, Len(wit) - 1) ELSE wit IN
              IF Len(w) = 1 THEN no(KeyPathOK(w[1], prog, annex))
+             \* script path, in this order: control block size, COMMITMENT of the
+             \* revealed leaf (version, script) to the output key, leaf version, and
+             \* only then the tapscript rules (OP_SUCCESSx scan, stack limits,
+             \* execution: ExecWitness).  A leaf that is not committed fails whatever
+             \* it contains.
              ELSE LET ctrl == w[Len(w)]  scrE == w[Len(w) - 1]  stk == SubSeq(w, 1, Len(w) - 2) IN
                   IF ~CtrlSizeOK(ctrl) THEN no(FALSE)
                   ELSE IF ~Commits(ctrl, scrE, prog) THEN no(FALSE)
                   ELSE IF ctrl.b[1] = 192 THEN
                        LET r == ExecWitness(stk, ScriptOfElem(scrE), Tap(c0, annex), 50 + WitnessSize(wit), "tapscript") IN
-                       [ok |-> r.ok, tr |-> r.tr, run |-> r.run, stk |-> stk]
+                       [ok |-> r.ok, tr |-> r.tr, run |-> r.run, stk |-> stk, err |-> r.err]
                   ELSE no(~Has(c0, "DISCOURAGE_UPGRADABLE_TAPROOT_VERSION"))
     ELSE IF ~isP2SH /\ IsAnchor(ver, prog) THEN no(TRUE)
     ELSE no(~Has(c0, "DISCOURAGE_UPGRADABLE_WITNESS_PROGRAM"))
@@ -161,18 +168,18 @@ VerifyWitnessProgram(c0, wit, ver, prog, isP2SH) ==
 VerifyScript(sp, c0) ==
     LET b == Base(c0)
         r1 == RunScript(<<>>, b, sp.sig, 0, "sig") IN
-    IF r1.err # "" THEN Res(FALSE, r1.tr)
+    IF r1.err # "" THEN ResE(r1.tr, r1.err)
     ELSE
     LET t1 == HandOver(r1.tr, r1.st, TRUE)
         r2 == RunScript(r1.st, b, sp.pk, 0, "pk")
         t12 == t1 \o r2.tr IN
-    IF r2.err # "" THEN Res(FALSE, t12)
+    IF r2.err # "" THEN ResE(t12, r2.err)
     ELSE IF Len(r2.st) = 0 \/ ~AsBool(r2.st[Len(r2.st)]) THEN Res(FALSE, t12)
     ELSE IF Has(c0, "WITNESS") /\ IsWitnessProgram(sp.pk) THEN
         \* native witness program
         IF Len(sp.sig) # 0 THEN Res(FALSE, t12)
         ELSE LET w == VerifyWitnessProgram(c0, sp.wit, WitVersion(sp.pk), WitProgram(sp.pk), FALSE) IN
-             IF ~w.ok THEN Res(FALSE, (IF w.run THEN HandOver(t12, w.stk, TRUE) ELSE t12) \o w.tr)
+             IF ~w.ok THEN ResE((IF w.run THEN HandOver(t12, w.stk, TRUE) ELSE t12) \o w.tr, w.err)
              ELSE IF w.run THEN Res(TRUE, HandOver(t12, w.stk, TRUE) \o w.tr)
              ELSE Res(TRUE, HandOver(t12, <<r2.st[1]>>, FALSE))
     ELSE IF Has(c0, "P2SH") /\ IsP2SH(sp.pk) THEN
@@ -186,12 +193,12 @@ VerifyScript(sp, c0) ==
         LET red == ScriptOfElem(redE)
             r3 == RunScript(stk3, b, red, 0, "redeem")
             t123 == HandOver(t12, stk3, TRUE) \o r3.tr IN
-        IF r3.err # "" THEN Res(FALSE, t123)
+        IF r3.err # "" THEN ResE(t123, r3.err)
         ELSE IF Len(r3.st) = 0 \/ ~AsBool(r3.st[Len(r3.st)]) THEN Res(FALSE, t123)
         ELSE IF Has(c0, "WITNESS") /\ IsWitnessProgram(red) THEN
             IF sp.sig # <<Push(redE)>> THEN Res(FALSE, t123)
             ELSE LET w == VerifyWitnessProgram(c0, sp.wit, WitVersion(red), WitProgram(red), TRUE) IN
-                 IF ~w.ok THEN Res(FALSE, (IF w.run THEN HandOver(t123, w.stk, TRUE) ELSE t123) \o w.tr)
+                 IF ~w.ok THEN ResE((IF w.run THEN HandOver(t123, w.stk, TRUE) ELSE t123) \o w.tr, w.err)
                  ELSE IF w.run THEN Res(TRUE, HandOver(t123, w.stk, TRUE) \o w.tr)
                  ELSE Res(TRUE, HandOver(t123, <<r3.st[1]>>, FALSE))
         ELSE IF Has(c0, "CLEANSTACK") /\ Len(r3.st) # 1 THEN Res(FALSE, t123)
